@@ -396,6 +396,16 @@ def build(unit_path, repo=None, extra_tail=''):
             R.check_residue(body, where)
         for k, v in fired.items():
             g.rules_fired[k] = g.rules_fired.get(k, 0) + v
+        if it.as_header and getattr(item, 'parent_text', None):
+            # rule R21: a std trait impl turned into an inherent impl; its associated types are substituted
+            for am in re.finditer(r'\btype\s+([A-Za-z0-9_]+)\s*=\s*([^;]+);', item.parent_text):
+                pat = r'\bSelf\s*::\s*%s\b' % re.escape(am.group(1))
+                if re.search(pat, sig) or (body and re.search(pat, body)):
+                    sig = re.sub(pat, am.group(2).strip(), sig)
+                    if body:
+                        body = re.sub(pat, am.group(2).strip(), body)
+                    fired['R21'] = fired.get('R21', 0) + 1
+                    g.rules_fired['R21'] = g.rules_fired.get('R21', 0) + 1
         if it.rename:
             sig = re.sub(r'\bfn\s+' + re.escape(item.name) + r'\b', 'fn ' + it.rename, sig, count=1)
         if it.ret:
